@@ -124,6 +124,7 @@ type Obs struct {
 	CoreID      string
 	Trail       []string
 	NodeNil     bool
+	RawPath     string // r.URL.RawPath as the handler sees it
 	Pattern     string // route.Node().Pattern()
 	Methods     []string
 	MethodsLive []string // not a copy: what Node().Methods() returned
@@ -213,6 +214,7 @@ func Call(w http.ResponseWriter, r *http.Request, route types.Route, h *H) {
 		o.WIsHead = true
 	}
 	o.Path = r.URL.Path
+	o.RawPath = r.URL.RawPath
 	if route != nil {
 		o.Router = route.RouterName()
 		n := route.Node()
@@ -329,6 +331,7 @@ type Req struct {
 	Path    string
 	RawPath string // URL.RawPath, "" = canonical
 	Host    string
+	URLHost string // URL.Host: empty for an origin-form target; an absolute-form target or a rewriting proxy sets it
 	Header  map[string]string
 	Fault   *Fault
 }
@@ -340,6 +343,9 @@ func (q Req) String() string {
 	}
 	if q.Host != "" {
 		s += " host=" + q.Host
+	}
+	if q.URLHost != "" {
+		s += " url.host=" + q.URLHost
 	}
 	if len(q.Header) > 0 {
 		ks := make([]string, 0, len(q.Header))
@@ -359,7 +365,7 @@ func (q Req) String() string {
 func NewRequest(q Req, o *Obs) *http.Request {
 	r := &http.Request{
 		Method: q.Method,
-		URL:    &url.URL{Path: q.Path, RawPath: q.RawPath},
+		URL:    &url.URL{Path: q.Path, RawPath: q.RawPath, Host: q.URLHost},
 		Proto:  "HTTP/1.1", ProtoMajor: 1, ProtoMinor: 1,
 		Header: http.Header{},
 		Host:   q.Host,
